@@ -192,7 +192,10 @@ def main():
     # 5. malformed / unknown
     bad_lines = [["-fnot-a-flag"], ["-fno-not-a-flag"], ["--flag", "bogus"], ["--flag", "bogus=yes"], ["--flag"], ["-O9"], ["-Ox"], ["-O"], ["-O-9"], ["-O-1"], ["-O+1"], ["-O1x"],
                  ["--nonsense", "3"], ["--max-shortcircuit-fallthrough", "abc"], ["--max-shortcircuit-fallthrough"], ["-"], ["-q"],
-                 ["--flag", "eof-support=yes=no"], ["-d", "nothing"], ["--dump", "bogus"], ["-o", "a.b"], ["-fEOF_SUPPORT_X"]]
+                 ["--flag", "eof-support=yes=no"], ["-d", "nothing"], ["--dump", "bogus"], ["-o", "a.b"], ["-fEOF_SUPPORT_X"],
+                 # a value that is neither an affirmative nor a negative; junk after an option that takes no value
+                 ["--flag", "strings-as-u8=maybe"], ["--flag", "eof-support=true"], ["--flag", "eof-support="], ["--flag", "eof-support=0"],
+                 ["-tfoo"], ["-t1"], ["-dfoo"], ["-d"]]
     for _ in range(60 if quick else 600):
         junk = "".join(rng.choice("abcxyz-_=9") for _ in range(rng.randint(1, 8)))
         bad_lines.append([rng.choice(["-f", "-fno-", "--", "-O", "--flag "]).strip() + junk] if rng.random() < 0.7 else ["--flag", junk])
@@ -205,7 +208,8 @@ def main():
             n = n[3:] if n.startswith("no-") else n
             known = n.upper().replace("-", "_") in F.__members__
         if toks[0] == "--flag" and len(toks) > 1:
-            known = toks[1].split("=")[0].upper().replace("-", "_") in F.__members__ and toks[1].count("=") <= 1
+            known = toks[1].split("=")[0].upper().replace("-", "_") in F.__members__ and toks[1].count("=") <= 1 and \
+                (toks[1].count("=") == 0 or toks[1].split("=")[1] in ("yes", "on", "no", "off"))
         if toks[0].startswith("-O") and toks[0][2:].isdigit() and int(toks[0][2:]) in levels:
             known = True
         if rr[0] == "ok" and not known:
